@@ -289,6 +289,9 @@ PROSE = [
     (r"^Ключ id_privkey получен", "ok_privkey"),
     (r"^открытый ключ id_pubkey получен", "ok_idpubkey"),
     (r"^Формат запроса соответствует", "ok_format"),
+    (r"^Генератор ang", "ok_ang"),
+    (r"^Номера открытых ключей", "ok_num"),
+    (r"^Если share != 0, то 1 <= share\[0\]", "ok_num"),
 ]
 
 # error classes that mean "authentication / integrity verification failed" (E2)
@@ -307,9 +310,17 @@ EXTRA_SCALARS = {"bignDH": ["l"], "botpHOTPVerify": ["digit"], "botpTOTPVerify":
                  "bakeBSTSStart": [], }
 
 
-def D(base=None, secret=0, auth=(), extra=None, flags=(), tamper=(), fault=True, skip_clause=(), slow=0):
+def D(base=None, secret=0, auth=(), extra=None, flags=(), tamper=(), fault=True, skip_clause=(), slow=0, hand=(), hand2=(), level_is_arg=False):
+    """hand: hand-written clauses (argument, TLA+ predicate over a, error class or ERR_ANY, source text) for
+    conditions the header gives in prose (\\return, \\remark, or the \\expect of the Start function a Run driver calls)"""
     return dict(base=base or {}, secret=secret, auth=list(auth), extra=extra or {}, flags=list(flags),
-                tamper=list(tamper), fault=fault, skip_clause=list(skip_clause), slow=slow)
+                tamper=list(tamper), fault=fault, skip_clause=list(skip_clause), slow=slow, hand=list(hand) + list(hand2),
+                level_is_arg=level_is_arg)
+
+
+# the Run drivers inherit the \expect clauses of the Start functions they call (bake.h documents them there)
+RUNHAND = [("ok_params", "a.ok_params = 1", "ERR_BAD_PARAMS", "as bake*Start: parameters params are valid"),
+           ("ok_rng", "a.ok_rng = 1", "ERR_BAD_RNG", "as bake*Start: generator settings->rng is valid")]
 
 
 KL = {"len": 32}
@@ -341,8 +352,120 @@ DRIVE = {
     "beltKRP": D({"m": 16, "n": 32}, 1),
     "beltHMAC": D({"count": 40, "len": 29}, 1, extra={"len": [0, 1, 32, 33, 42], "count": [0, 1]}),
     "beltPBKDF2": D({"pwd_len": 9, "iter": 100, "salt_len": 8}, 1, extra={"pwd_len": [0, 1, 33], "salt_len": [0, 1]}),
-}
 
+    # ---- bash, brng, botp
+    "bashHash": D({"l": 128, "count": 40}, 0, extra={"count": [0, 1, 191, 192, 193]}, level_is_arg=True),
+    "brngCTRRand": D({"count": 96}, 1, extra={"count": [0, 1, 31, 32, 33]}),
+    "brngHMACRand": D({"count": 96, "key_len": 32, "iv_len": 32}, 1,
+                      extra={"count": [0, 1, 32, 33], "key_len": [0, 1, 31, 33, 127], "iv_len": [0, 1, 127]}),
+    "botpHOTPRand": D({"digit": 8, "key_len": 32}, 1, extra={"key_len": [0, 1, 33]}),
+    "botpHOTPVerify": D({"digit": 8, "key_len": 32}, 1, auth=["ERR_BAD_PWD"], tamper=["otp", "key", "ctr"], extra={"key_len": [1, 33]}),
+    "botpTOTPRand": D({"digit": 8, "key_len": 32, "t": 24472180}, 1, extra={"key_len": [0, 1, 33], "t": [-1, 0, 1]}),
+    "botpTOTPVerify": D({"digit": 8, "key_len": 32, "t": 24472180}, 1, auth=["ERR_BAD_PWD"], tamper=["otp", "key", "time"],
+                        extra={"t": [-1, 0, 1]}),
+    "botpOCRARand": D({"key_len": 32, "q_len": 8, "t": 24472183}, 1, flags=["ok_suite"],
+                      hand=[("q_len", "4 <= a.q_len /\\ a.q_len <= 16", "ERR_BAD_PARAMS", "4 <= q_len && q_len <= 2 * q_max with q_max = 8 of the suite QN08 used by the driver")],
+                      extra={"q_len": [3, 4, 5, 15, 16, 17, 0, 1], "key_len": [1, 33], "t": [-1]},
+                      hand2=[("t", "a.t # (-1)", "ERR_BAD_TIME", "the driver's suite uses T: t != TIME_ERR")]),
+    "botpOCRAVerify": D({"key_len": 32, "q_len": 8, "t": 24472183}, 1, flags=["ok_suite"], auth=["ERR_BAD_PWD"], tamper=["otp", "key", "q"],
+                        hand=[("q_len", "4 <= a.q_len /\\ a.q_len <= 16", "ERR_BAD_PARAMS", "4 <= q_len && q_len <= 2 * q_max with q_max = 8 of the suite QN08 used by the driver")],
+                        extra={"q_len": [3, 4, 5, 15, 16, 17, 0, 1], "t": [-1]},
+                        hand2=[("t", "a.t # (-1)", "ERR_BAD_TIME", "the driver's suite uses T: t != TIME_ERR")]),
+    # ---- bels
+    "belsStdM": D({"len": 32, "num": 3}, 0),
+    "belsValM": D({"len": 32}, 0),
+    "belsGenM0": D({"len": 32}, 0, flags=["ok_ang"]),
+    "belsGenMi": D({"len": 32}, 0, flags=["ok_ang"]),
+    "belsGenMid": D({"len": 32, "id_len": 5}, 0, extra={"id_len": [0, 1, 64]}),
+    "belsShare": D({"count": 5, "threshold": 3, "len": 32}, 1, flags=["ok_rng"], extra={"count": [16, 17]}),
+    "belsShare2": D({"count": 5, "threshold": 3, "len": 32}, 1, flags=["ok_rng"]),
+    "belsShare3": D({"count": 5, "threshold": 3, "len": 32}, 1),
+    "belsRecover": D({"count": 3, "len": 32}, 1, extra={"count": [1, 2, 4, 5]}),
+    "belsRecover2": D({"count": 3, "len": 32}, 1, flags=["ok_num"], extra={"count": [1, 2, 4, 5]}),
+    # ---- bign (level l = 128, standard curve; keys generated by the library itself)
+    "bignParamsVal": D({"l": 128}, 0, hand=[("ok_params", "a.ok_params = 1", "ERR_ANY", "\\return ERR_OK iff the parameters are valid")], extra={"l": [192, 256]}),
+    "bignKeypairGen": D({"l": 128}, 1, flags=["ok_params", "ok_rng"], extra={"l": [192, 256]}),
+    "bignKeypairVal": D({"l": 128}, 1, flags=["ok_params"], extra={"l": [192, 256]},
+                        hand=[("ok_privkey", "a.ok_privkey = 1", "ERR_ANY", "\\return ERR_OK iff the pair is valid"),
+                              ("ok_pubkey", "a.ok_pubkey = 1", "ERR_ANY", "\\return ERR_OK iff the pair is valid")]),
+    "bignPubkeyVal": D({"l": 128}, 0, flags=["ok_params"], extra={"l": [192, 256]},
+                       hand=[("ok_pubkey", "a.ok_pubkey = 1", "ERR_ANY", "\\return ERR_OK iff the key is valid")]),
+    "bignPubkeyCalc": D({"l": 128}, 1, flags=["ok_params", "ok_privkey"], extra={"l": [192, 256]}),
+    "bignDH": D({"l": 128, "key_len": 32}, 1, flags=["ok_params", "ok_privkey", "ok_pubkey"], extra={"key_len": [0, 1, 63, 64, 65]}),
+    "bignSign": D({"l": 128}, 1, flags=["ok_params", "ok_oid", "ok_privkey", "ok_rng"], extra={"l": [192, 256]}),
+    "bignSign2": D({"l": 128, "t_len": 16}, 1, flags=["ok_params", "ok_oid", "ok_privkey"], extra={"l": [192, 256], "t_len": [0, 1, 64]}),
+    "bignVerify": D({"l": 128}, 0, flags=["ok_params", "ok_oid", "ok_pubkey"], auth=["ERR_BAD_SIG"], tamper=["sig0", "sig1", "hash", "s1max"],
+                    extra={"l": [192, 256]}),
+    "bignKeyWrap": D({"l": 128, "len": 32}, 1, flags=["ok_params", "ok_pubkey", "ok_rng"], extra={"len": [18, 64]}),
+    "bignKeyUnwrap": D({"l": 128, "len": 80}, 1, flags=["ok_params", "ok_privkey"], auth=["ERR_BAD_KEYTOKEN"],
+                       tamper=["token", "point", "hdr", "key"],
+                       hand=[("len", "a.len >= 64", "ERR_BAD_KEYTOKEN", "token [len] = [l/4 + 16 + key]: at least 16 key octets (bignKeyWrap: len >= 16; \\remark: broken token => ERR_BAD_KEYTOKEN)")],
+                       extra={"len": [63, 64, 65, 0, 1]}),
+    "bignIdExtract": D({"l": 128}, 1, flags=["ok_params", "ok_oid", "ok_pubkey"], auth=["ERR_BAD_SIG"], tamper=["sig0", "idhash"]),
+    "bignIdSign": D({"l": 128}, 1, flags=["ok_params", "ok_oid", "ok_privkey", "ok_rng"]),
+    "bignIdSign2": D({"l": 128, "t_len": 16}, 1, flags=["ok_params", "ok_oid", "ok_privkey"]),
+    "bignIdVerify": D({"l": 128}, 0, flags=["ok_params", "ok_oid", "ok_pubkey", "ok_idpubkey"], auth=["ERR_BAD_SIG"], tamper=["sig0", "hash", "idhash"]),
+    # ---- bign96
+    "bign96ParamsVal": D({}, 0, hand=[("ok_params", "a.ok_params = 1", "ERR_ANY", "\\return ERR_OK iff the parameters are valid")]),
+    "bign96KeypairGen": D({}, 1, flags=["ok_params", "ok_rng"]),
+    "bign96KeypairVal": D({}, 1, flags=["ok_params"],
+                          hand=[("ok_privkey", "a.ok_privkey = 1", "ERR_ANY", "\\return ERR_OK iff the pair is valid"),
+                                ("ok_pubkey", "a.ok_pubkey = 1", "ERR_ANY", "\\return ERR_OK iff the pair is valid")]),
+    "bign96PubkeyVal": D({}, 0, flags=["ok_params"], hand=[("ok_pubkey", "a.ok_pubkey = 1", "ERR_ANY", "\\return ERR_OK iff the key is valid")]),
+    "bign96PubkeyCalc": D({}, 1, flags=["ok_params", "ok_privkey"]),
+    "bign96Sign": D({}, 1, flags=["ok_params", "ok_oid", "ok_privkey", "ok_rng"]),
+    "bign96Sign2": D({"t_len": 16}, 1, flags=["ok_params", "ok_oid", "ok_privkey"], extra={"t_len": [0, 1]}),
+    "bign96Verify": D({}, 0, flags=["ok_params", "ok_oid", "ok_pubkey"], auth=["ERR_BAD_SIG"], tamper=["sig0", "sig1", "hash"]),
+    # ---- bake (Run drivers over an in-memory channel; certlen 600 makes M2/M3 span several blocks)
+    "bakeKDF": D({"secret_len": 32, "iv_len": 64, "num": 1}, 1, extra={"secret_len": [0, 1], "iv_len": [0, 1], "num": [0, 2]}),
+    "bakeSWU": D({"l": 128}, 0, flags=["ok_params"], extra={"l": [192, 256]}),
+    "bakeBMQVRunA": D({"certlen": 69}, 1, auth=["ERR_ANY"], tamper=["msg1", "msg2"],
+                      hand=RUNHAND, extra={"certlen": [64, 600]}),
+    "bakeBMQVRunB": D({"certlen": 69}, 1, auth=["ERR_ANY"], tamper=["msg1", "msg2"],
+                      hand=RUNHAND, extra={"certlen": [64, 600]}),
+    "bakeBSTSRunA": D({"certlen": 69}, 1, auth=["ERR_ANY"],
+                      tamper=["msg1", "msg2", "msgcert", "short"], hand=RUNHAND, extra={"certlen": [64, 600, 1100]}),
+    "bakeBSTSRunB": D({"certlen": 69}, 1, auth=["ERR_ANY"],
+                      tamper=["msg1", "msg2", "msgcert", "short"], hand=RUNHAND, extra={"certlen": [64, 600, 1100]}),
+    "bakeBPACERunA": D({"pwd_len": 4}, 1, auth=["ERR_ANY"], tamper=["msg1", "msg2", "pwd"], hand=RUNHAND, extra={"pwd_len": [0, 1, 8]}),
+    "bakeBPACERunB": D({"pwd_len": 4}, 1, auth=["ERR_ANY"], tamper=["msg1", "msg2", "pwd"], hand=RUNHAND, extra={"pwd_len": [0, 1, 8]}),
+    # ---- bpki
+    "bpkiPrivkeyWrap": D({"privkey_len": 32, "pwd_len": 8, "iter": 10000}, 1, extra={"pwd_len": [0, 1]}),
+    "bpkiPrivkeyUnwrap": D({"pwd_len": 8, "epki_len": 160}, 1, auth=["ERR_ANY"], tamper=["pwd", "ct", "last", "der"]),
+    "bpkiShareWrap": D({"share_len": 33, "pwd_len": 8, "iter": 10000}, 1, flags=["ok_num"]),
+    "bpkiShareUnwrap": D({"pwd_len": 8, "epki_len": 160}, 1, auth=["ERR_ANY"], tamper=["pwd", "ct", "last"]),
+    "bpkiCSRUnwrap": D({"csr_len": 382}, 0, auth=["ERR_ANY"], tamper=["sig", "body"]),
+    "bpkiCSRRewrap": D({"csr_len": 382, "privkey_len": 32}, 1),
+    # ---- btok CVC
+    "btokCVCWrap": D({"privkey_len": 64}, 1),
+    "btokCVCUnwrap": D({"cert_len": 322, "pubkey_len": 128}, 0, auth=["ERR_ANY"], tamper=["sig", "body", "key"]),
+    "btokCVCIss": D({"certa_len": 356, "privkeya_len": 64}, 1),
+    "btokCVCVal": D({"cert_len": 322, "certa_len": 356}, 0, auth=["ERR_ANY"], tamper=["sig", "body", "date"]),
+    "btokCVCVal2": D({"cert_len": 322}, 0, auth=["ERR_ANY"], tamper=["sig", "body", "date"]),
+    "btokCVCMatch": D({"cert_len": 322, "privkey_len": 48}, 1, auth=["ERR_ANY"], tamper=["key"]),
+    # ---- g12s, dstu, pfok, stb99
+    "g12sParamsVal": D({"l": 256}, 0, hand=[("ok_params", "a.ok_params = 1", "ERR_ANY", "\\return ERR_OK iff the parameters are valid")], extra={"l": [512]}),
+    "g12sKeypairGen": D({"l": 256}, 1, flags=["ok_params", "ok_rng"], extra={"l": [512]}),
+    "g12sSign": D({"l": 256}, 1, flags=["ok_params", "ok_privkey", "ok_rng"], extra={"l": [512]}),
+    "g12sVerify": D({"l": 256}, 0, flags=["ok_params", "ok_pubkey"], auth=["ERR_ANY"], tamper=["sig0", "hash"], extra={"l": [512]}),
+    "dstuParamsVal": D({}, 0, hand=[("ok_params", "a.ok_params = 1", "ERR_ANY", "\\return ERR_OK iff the parameters are valid")]),
+    "dstuPointGen": D({}, 0, flags=["ok_params"]),
+    "dstuPointVal": D({}, 0, flags=["ok_params"], hand=[("ok_point", "a.ok_point = 1", "ERR_ANY", "\\return ERR_OK iff the point is valid")]),
+    "dstuPointCompress": D({}, 0, flags=["ok_params"]),
+    "dstuPointRecover": D({}, 0, flags=["ok_params"]),
+    "dstuKeypairGen": D({}, 1, flags=["ok_params", "ok_rng"]),
+    "dstuSign": D({"ld": 512, "hash_len": 21}, 1, flags=["ok_params", "ok_privkey", "ok_rng"],
+                  hand=[("ld", "(a.ld % 16) = 0 /\\ a.ld >= 326", "ERR_BAD_INPUT", "ld is a multiple of 16; two residues mod n (163 bits) fit into ld bits")],
+                  extra={"ld": [320, 336, 352, 511, 512, 513, 528, 0, 1, 16], "hash_len": [0, 1, 32]}),
+    "dstuVerify": D({"ld": 512, "hash_len": 21}, 0, flags=["ok_params", "ok_pubkey"], auth=["ERR_ANY"], tamper=["sig0", "hash"]),
+    "pfokParamsVal": D({}, 0, hand=[("ok_params", "a.ok_params = 1", "ERR_ANY", "\\return ERR_OK iff the parameters are valid")]),
+    "pfokKeypairGen": D({}, 1, flags=["ok_params", "ok_rng"]),
+    "pfokPubkeyVal": D({}, 0, flags=["ok_params"], hand=[("ok_pubkey", "a.ok_pubkey = 1", "ERR_ANY", "\\return ERR_OK iff the key is valid")]),
+    "pfokPubkeyCalc": D({}, 1, flags=["ok_params", "ok_privkey"]),
+    "pfokDH": D({}, 1, flags=["ok_params", "ok_privkey", "ok_pubkey"]),
+    "pfokMTI": D({}, 1, flags=["ok_params", "ok_privkey", "ok_pubkey"]),
+    "stb99ParamsVal": D({}, 0, hand=[("ok_params", "a.ok_params = 1", "ERR_ANY", "\\return ERR_OK iff the parameters are valid")]),
+}
 
 # ------------------------------------------------------------------ table construction
 
@@ -384,6 +507,10 @@ def build_table(repo):
                 if drv and idx in drv["skip_clause"]:
                     c.update(kind="prose", tla="TRUE", vars=[])
                 cl.append(c)
+            if drv:
+                for arg, pred, err, text in drv["hand"]:
+                    cl.append({"err": err, "text": "[hand] " + text, "kind": "hand", "tla": pred, "vars": [arg],
+                               "consts": set(), "varvar": set()})
             f["cl"] = cl
             f["drive"] = drv
             fns.append(f)
@@ -396,6 +523,9 @@ def sweeps(f):
     base = dict(drv["base"])
     for fl in drv["flags"]:
         base.setdefault(fl, 1)
+    for arg, pred, err, text in drv["hand"]:
+        if arg.startswith("ok_"):
+            base.setdefault(arg, 1)
     sw = {}
     for c in f["cl"]:
         if c["kind"] == "pred":
@@ -405,10 +535,14 @@ def sweeps(f):
                 sw.setdefault(v, set()).update(x for x in (k - 1, k, k + 1) if x >= -1)
             for v, w in c["varvar"]:
                 sw.setdefault(v, set()).update(x for x in (base[w] - 1, base[w], base[w] + 1) if x >= 0)
-        elif c["kind"] == "flag":
+        elif c["kind"] == "flag" or (c["kind"] == "hand" and c["vars"][0].startswith("ok_")):
             sw.setdefault(c["vars"][0], set()).update([0, 1])
     for v, xs in drv["extra"].items():
         sw.setdefault(v, set()).update(xs)
+    if "l" in sw and not drv["level_is_arg"]:                      # pseudo-scalar naming the standard parameter set: only listed levels
+        sw["l"] = set(drv["extra"].get("l", []))
+        if not sw["l"]:
+            del sw["l"]
     for v in sw:
         if not v.startswith("ok_") and v != "t":
             sw[v] = {x for x in sw[v] if x >= 0}
@@ -434,6 +568,8 @@ def emit(fns, codes, out):
       "                   the record `a` of logged arguments\n"
       "     kind \"flag\"   prose about an object (parameters, private key, generator ...): the driver\n"
       "                   builds a valid (a.ok_x = 1) or an invalid (a.ok_x = 0) object\n"
+      "     kind \"hand\"   hand-written from prose of the header (\\return, \\remark, clauses of a called Start\n"
+      "                   function); text says where it comes from\n"
       "     kind \"prose\"  not driven: never violated by a generated case (pred TRUE)\n"
       "   E1: some clause violated => rc is the error class of one of the violated clauses, rc # OK and\n"
       "       the outputs are untouched; no clause violated => rc = OK.\n"
@@ -442,7 +578,8 @@ def emit(fns, codes, out):
       "   Replay direction: spec/gen/Gen_Err.tla enumerates `Cases` (per driven function the baseline\n"
       "   and every boundary value of every scalar argument) with the verdict the contract predicts. *)\n")
     w("EXTENDS Naturals, Integers, Sequences, FiniteSets, TLC, Json\n\n")
-    w("ErrCode == [\n  " + ",\n  ".join("%s |-> %d" % (k, v) for k, v in codes.items()) + " ]\n\n")
+    w("\\* ERR_ANY: the header only says `an error code` (\\return ERR_OK iff ...)\n")
+    w("ErrCode == [\n  " + ",\n  ".join("%s |-> %d" % (k, v) for k, v in list(codes.items()) + [("ERR_ANY", -1)]) + " ]\n\n")
     w("AuthErrs == {" + ", ".join(tla_str(e) for e in AUTH_ERRS) + "}\n\n")
     nclauses = 0
     cur_h = None
@@ -492,7 +629,7 @@ Expect(f, a) == {ErrCode[Contract(f).clauses[i].err] : i \in Violated(f, a)}
 \* E1 on one observed call
 E1(f, a, rc, touched) ==
   IF Violated(f, a) = {} THEN rc = 0
-  ELSE rc # 0 /\ rc \in Expect(f, a) /\ ~touched
+  ELSE rc # 0 /\ (rc \in Expect(f, a) \/ ErrCode["ERR_ANY"] \in Expect(f, a)) /\ ~touched
 
 \* E2 on one observed failed authentication: pre-image or zeros, never the plaintext
 Zeros(n) == [i \in 1..n |-> 0]
@@ -505,7 +642,7 @@ Released(post, plain) == Len(plain) > 0 /\ \E w \in Windows(plain) : Contains(po
 E2strict(pre, post) == post = pre \/ post = Zeros(Len(post))
 E2(f, rc, pre, post, plain) ==
   /\ rc # 0
-  /\ rc \in {ErrCode[e] : e \in Contract(f).auth}
+  /\ (rc \in {ErrCode[e] : e \in Contract(f).auth} \/ "ERR_ANY" \in Contract(f).auth)
   /\ ~Released(post, plain)
   /\ E2strict(pre, post)
 
@@ -520,7 +657,7 @@ Cases == {<<f, "", 0>> : f \in DrivenFns}
 BaselineValid == \A f \in DrivenFns : Violated(f, Contract(f).base) = {}
 \* every driven clause (pred or flag) is violated by at least one generated case
 Reached(f) == UNION {Violated(f, Args(f, pv[1], pv[2])) : pv \in Contract(f).sweep}
-DrivenClauses(f) == {i \in 1..NClauses(f) : Contract(f).clauses[i].kind \in {"pred", "flag"}}
+DrivenClauses(f) == {i \in 1..NClauses(f) : Contract(f).clauses[i].kind \in {"pred", "flag", "hand"}}
 EveryClauseReachable == \A f \in DrivenFns : DrivenClauses(f) \subseteq Reached(f)
 \* a sweep changes one argument only, so a case violates clauses of that argument only
 TableOK == BaselineValid /\ EveryClauseReachable
